@@ -283,24 +283,9 @@ func c07ReaderOrder(r *core.Report) {
 				return true
 			}
 			rn := g.NodeOf(rs.X.Pos())
-			ok2, why := false, "no strict descending sort on the epoch number dominates the loop that builds the reader list"
-			for _, n := range stmtNodes(g) {
-				for _, si := range sortCalls(info, n.Ast) {
-					if si.SliceObj != so {
-						continue
-					}
-					if !si.Decided || !si.Strict || si.Op != token.GTR {
-						why = "the sort of " + so.Name() + " is not a strict descending comparison (op " + si.Op.String() + ")"
-						continue
-					}
-					if !strings.Contains(strings.ToLower(si.KeyI), "epoch") {
-						why = "the sort key is not the epoch number: " + si.KeyI
-						continue
-					}
-					if rn != nil && g.Dominates(n, rn) && !reassignedBetween(g, info, n, rn, so) {
-						ok2 = true
-					}
-				}
+			ok2, why := orderedSlice(p, f, so, rn, token.GTR, 0)
+			if !ok2 {
+				why = "the reader list is not built from a slice known to be ordered newest first: " + why
 			}
 			r.Check(ok2, rule, key, pos(r, rs), "a strict descending sort by epoch dominates the construction of the reader list", why)
 			return true
